@@ -22,7 +22,7 @@ def run(tier, seed, work, replay):
     cases = [{"kind": "sweep"}]
     inj = [{"pass": p, "cert": c, "tls": t} for p in passes for c in (True, False) for t in (True, False)]
     # every single injection on every kind of key file, then all ordered pairs around the right one, then random sequences
-    for f in ("ok", "ed", "edbad", "rsabad"):
+    for f in ("ok", "ed", "edbad", "rsabad", "edprimary", "ecprimary521"):
         for a in inj:
             cases.append({"kind": "sequence", "file": f, "steps": [a]})
     good = {"pass": "right", "cert": True, "tls": True}
@@ -34,7 +34,7 @@ def run(tier, seed, work, replay):
     for a in inj:
         cases.append({"kind": "sequence", "file": "ok", "steps": [a, good, a, good]})
     for _ in range(20 if tier == "quick" else 200):
-        cases.append({"kind": "sequence", "file": rng.choice(["ok", "ok", "ed", "edbad", "rsabad"]),
+        cases.append({"kind": "sequence", "file": rng.choice(["ok", "ok", "ed", "edbad", "rsabad", "edprimary", "ecprimary521"]),
                       "steps": [rng.choice(inj + [good, good]) for _ in range(rng.randint(2, 6))]})
     ncon = 12 if tier == "quick" else 120
     for _ in range(ncon):
